@@ -371,7 +371,7 @@ func sliceSources(v ssa.Value) []ssa.Value {
 		case *ssa.ChangeType:
 			walk(x.X)
 		case *ssa.Call:
-			if b, ok := x.Call.Value.(*ssa.Builtin); ok && b.Name() == "append" {
+			if b, ok := x.Call.Value.(*ssa.Builtin); ok && an.Ident(b.Name()) == "append" {
 				walk(x.Call.Args[0])
 			}
 		case *ssa.UnOp:
